@@ -16,7 +16,7 @@ ASSUME = ["fault models are harness LambdaChannels built from the schemes' publi
 HORIZON = {"quick": 400, "thorough": 3600}
 
 PAIRS = ["hamming74+syndrome", "hamming74+bruteforce", "hamming-r+syndrome", "bch15_7+bm", "bch15_5+bm", "rm13+reed", "rep5+bruteforce", "cyclic7+syndrome",
-         "tree+bp", "tree+minsum", "spc4+wagner", "polar8_4+sc", "polar8_4+polarbp", "rm13+softrm", "polar16_8+sc",
+         "tree+bp", "tree+minsum", "tree+minsumnorm", "tree+minsumoff", "spc4+wagner", "polar8_4+sc", "polar8_4+polarbp", "rm13+softrm", "polar16_8+sc",
          "polar8_4+polarbp1", "polar8_4+polarbp1ms", "polar16_8+polarbp2",
          "polar8_4i+sc", "polar16_8i+sc", "polar8_4o+sc",
          "hamming-l0246+syndrome", "bch15_7-odd+bm", "cyclic7-l6310+syndrome"]   # information sets that are neither contiguous nor ascending        # interleaved (polar_i=True) encoders and frozen ones with the SC decoder      # smallest iteration budgets (one sweep already converges on these links)
@@ -77,11 +77,12 @@ def build_pair(pr):
            "hamming-l0246": lambda: E.HammingCodeEncoder(3, information_set=[0, 2, 4, 6]), "bch15_7-odd": lambda: E.BCHCodeEncoder(4, 5, information_set=[1, 3, 5, 7, 9, 11, 13]),
            "cyclic7-l6310": lambda: E.CyclicCodeEncoder(7, generator_polynomial=0b1011, information_set=[6, 3, 1, 0])}[code]()
     d = {"syndrome": lambda: D.SyndromeLookupDecoder(enc), "bruteforce": lambda: D.BruteForceMLDecoder(enc), "bm": lambda: D.BerlekampMasseyDecoder(enc), "reed": lambda: D.ReedMullerDecoder(enc),
-         "bp": lambda: D.BeliefPropagationDecoder(enc, bp_iters=12), "minsum": lambda: D.MinSumLDPCDecoder(enc, bp_iters=12), "wagner": lambda: D.WagnerSoftDecisionDecoder(enc),
+         "bp": lambda: D.BeliefPropagationDecoder(enc, bp_iters=12), "minsum": lambda: D.MinSumLDPCDecoder(enc, bp_iters=12), "minsumnorm": lambda: D.MinSumLDPCDecoder(enc, bp_iters=12, normalized=True),
+         "minsumoff": lambda: D.MinSumLDPCDecoder(enc, bp_iters=12, scaling_factor=0.9, offset=0.4), "wagner": lambda: D.WagnerSoftDecisionDecoder(enc),
          "sc": lambda: D.SuccessiveCancellationDecoder(enc), "polarbp": lambda: D.BeliefPropagationPolarDecoder(enc, bp_iters=10),
          "polarbp1": lambda: D.BeliefPropagationPolarDecoder(enc, bp_iters=1), "polarbp1ms": lambda: D.BeliefPropagationPolarDecoder(enc, bp_iters=1, regime="min_sum"),
          "polarbp2": lambda: D.BeliefPropagationPolarDecoder(enc, bp_iters=2), "softrm": lambda: D.ReedMullerDecoder(enc, input_type="soft")}[dec]()
-    soft = dec in ("bp", "minsum", "wagner", "sc", "polarbp", "polarbp1", "polarbp1ms", "polarbp2", "softrm")
+    soft = dec in ("bp", "minsum", "minsumnorm", "minsumoff", "wagner", "sc", "polarbp", "polarbp1", "polarbp1ms", "polarbp2", "softrm")
     t = None
     if not soft:
         dmin = {"hamming74": 3, "hamming-r": 3, "bch15_7": 5, "bch15_5": 7, "rm13": 4, "rep5": 5, "cyclic7": 3, "hamming-l0246": 3, "bch15_7-odd": 5, "cyclic7-l6310": 3}[code]
@@ -274,11 +275,11 @@ def run_pair(p, res):
             return model(x, **kw)
         kw = {"noise_var": 0.5} if soft else {}
 
-        def check(chname, channel, clause, x=None):
+        def check(chname, channel, clause, x=None, kw_=None):
             if x is None:
                 x = msgs if clause == "ideal" else fault_msgs
             try:
-                out = link(channel, x, **kw)
+                out = link(channel, x, **(kw if kw_ is None else kw_))
             except Exception as e:  # noqa: BLE001
                 res.viol(pr, f"{cfg},{chname}", "raises", f"{type(e).__name__}: {str(e)[:200]}")
                 return False
@@ -293,6 +294,16 @@ def run_pair(p, res):
         check("perfect,B=1", PerfectChannel(), "ideal", msgs[-1:])
         check("perfect,B=3", PerfectChannel(), "ideal", msgs[1:4] if msgs.shape[0] >= 4 else msgs[:3])
         check("lambda-identity", LambdaChannel(lambda s, *a, **k2: s), "ideal")
+        if soft:
+            # the same soft links at other noise variances: LLR magnitudes of the order 1e-2 (variance 50) and 1e3 (variance 1e-3) - the decision
+            # of every soft decoder depends on the signs and the relative sizes only
+            for nv in (50.0, 1e-3):
+                check(f"perfect,noise_var={nv}", PerfectChannel(), "ideal", None, {"noise_var": nv})
+                for di in (1, 4, 6):
+                    dvv = complex(cmath.exp(1j * math.pi * di / 4)) * 0.45 * dmin
+                    if real_only:
+                        dvv = complex(0.45 * dmin * (1 if dvv.real >= 0 else -1), dvv.imag)
+                    check(f"displace-all,dir{di},noise_var={nv}", LambdaChannel(lambda s, *a, dv=dvv, **k2: s + dv), "<dmin/2", None, {"noise_var": nv})
         # ---- bounded symbol displacement: < dmin/2 in 8 directions
         dirs = [cmath.exp(1j * math.pi * d / 4) for d in range(8)] if not real_only else [1, -1, 1j, -1j, cmath.exp(0.25j * math.pi), cmath.exp(0.75j * math.pi), cmath.exp(1.25j * math.pi), cmath.exp(1.75j * math.pi)]
         for di, dvec in enumerate(dirs):
